@@ -8,8 +8,9 @@ Code-following part: the first loop of `IRGenerator.generate_IR` reduced to name
 `_add_data_types_and_routes_to_api` with `_create_type` / `_create_alias` / `_create_annotation` /
 `_create_annotation_type` / `_create_route` (exact-name test `item.name in env` on the per-namespace environment,
 which starts as a copy of `default_env` = the built-in type classes), `_raise_symbol_already_defined` and
-`_check_canonical_name_available` (`_get_base_name`: `name.replace('_','').replace('/','').lower() +
-ns.replace('_','').lower()`; routes may repeat a canonical name against routes only).
+`_check_canonical_name_available` (`_get_base_name`: `name.replace('_','').replace('/','').lower() + '/' +
+ns.replace('_','').lower()` -- the separator `Tables.feCanonicalSep` cannot occur in the first part, so the key
+determines both parts; routes may repeat a canonical name against routes only).
 
 Python partiality that is left in this pass: `_raise_symbol_already_defined` reads
 `existing.at_version[min(existing.at_version)]` of an `ApiRoutesByVersion`; `min` of an empty dictionary raises
@@ -41,8 +42,11 @@ def canonName (s : Name) : Name := lower (s.filter fun c => c != '_' && c != '/'
 /-- `namespace_name.replace('_', '').lower()` -/
 def canonNs (s : Name) : Name := lower (s.filter fun c => c != '_')
 
+/-- what `_get_base_name` puts between the two parts -/
+def sep : Name := Tables.feCanonicalSep.toList
+
 /-- `_get_base_name` -/
-def key (name ns : Name) : Name := canonName name ++ canonNs ns
+def key (name ns : Name) : Name := canonName name ++ sep ++ canonNs ns
 
 /-- class of the AST node kept in `_item_by_canonical_name` -/
 inductive Cls where
@@ -187,10 +191,11 @@ def NoClash (fs : List File) : Prop :=
 def keyParts (fs : List File) : List (Name × Name) :=
   (decls fs).map (fun a => (canonName a.item.name, canonNs a.ns)) ++ (namespaces fs).map (fun m => (canonNs m, canonNs m))
 
-/-- `_get_base_name` concatenates without a separator; the concatenation is unambiguous on these inputs when two
-keys are equal only if both parts are (`Ab` in `c` and `A` in `bc` both give `abc`). -/
+/-- the keys of `_get_base_name` are unambiguous on these inputs: two keys are equal only if both parts are.
+(Before the separator was introduced `Ab` in `c` and `A` in `bc` both gave `abc`; now this holds for every input
+whose namespace names are identifiers, `concatUnambiguous_of_nsLexical`.) -/
 def ConcatUnambiguous (fs : List File) : Prop :=
-  ∀ p ∈ keyParts fs, ∀ q ∈ keyParts fs, p.1 ++ p.2 = q.1 ++ q.2 → p = q
+  ∀ p ∈ keyParts fs, ∀ q ∈ keyParts fs, p.1 ++ sep ++ p.2 = q.1 ++ sep ++ q.2 → p = q
 
 /-- the same declarations, possibly in other files / another order (files of one namespace may be merged or split) -/
 def SameDecls (fs fs' : List File) : Prop :=
